@@ -67,6 +67,8 @@ class _Int(T):
             ctx.assume(c >= self.lo)
         if self.hi is not None:
             ctx.assume(c <= self.hi)
+        if self.lo is not None and self.hi is not None:
+            ctx.var_bounds[str(c)] = (self.lo, self.hi)
         return SInt(c)
 
 
